@@ -114,6 +114,24 @@ impl<T> Ctx<T> for Result<T, AnyErr> {
     fn context(self, msg: &str) -> (r: Result<T, AnyErr>) ensures match self { Ok(v) => r == Ok::<T, AnyErr>(v), Err(_) => r is Err } { unimplemented!() }
 }
 pub struct LibError; pub struct JoinError;
+// tokio::time::timeout(d, fut).await: Ok(the future's output) or Err(Elapsed); std::time::Duration (whole seconds)
+pub struct Elapsed;
+pub struct Duration { pub secs: u64 }
+impl Duration { pub const fn from_secs(secs: u64) -> (r: Duration) ensures r.secs == secs { Duration { secs } } }
+pub struct TimeoutFut<T> { pub v: T }
+impl<T> TimeoutFut<T> {
+    #[verifier::external_body]
+    pub fn await_(self) -> (r: Result<T, Elapsed>) ensures r matches Ok(v) ==> v == self.v, r is Err ==> env_fault() { unimplemented!() }
+}
+pub mod time {
+    use super::*;
+    // (sequential model: the inner future has already run to completion when it is handed over)
+    pub fn timeout<T>(d: Duration, v: T) -> (r: TimeoutFut<T>) ensures r.v == v { TimeoutFut { v } }
+}
+impl<T> Ctx<T> for Result<T, Elapsed> {
+    #[verifier::external_body]
+    fn context(self, msg: &str) -> (r: Result<T, AnyErr>) ensures match self { Ok(v) => r == Ok::<T, AnyErr>(v), Err(_) => r is Err } { unimplemented!() }
+}
 impl<T> Ctx<T> for Result<T, LibError> {
     #[verifier::external_body]
     fn context(self, msg: &str) -> (r: Result<T, AnyErr>) ensures match self { Ok(v) => r == Ok::<T, AnyErr>(v), Err(_) => r is Err } { unimplemented!() }
